@@ -39,15 +39,17 @@ type Case struct {
 	Throw    bool    `json:"throw"`
 	OnError  [][]any `json:"onerror"`
 	OnFormat bool    `json:"onformat"`
+	Items    [][]any `json:"items"`
 }
 
 type Obs struct {
-	Wh    int                 `json:"wh"`
-	Code  int                 `json:"code"`
-	Hdr   map[string][]string `json:"hdr"`
-	Body  string              `json:"body"`
-	Trace [][2]int            `json:"trace,omitempty"`
-	Err   string              `json:"err,omitempty"`
+	Wh     int                 `json:"wh"`
+	Code   int                 `json:"code"`
+	Hdr    map[string][]string `json:"hdr"`
+	Body   string              `json:"body"`
+	Trace  [][2]int            `json:"trace,omitempty"`
+	Bodies []string            `json:"bodies,omitempty"`
+	Err    string              `json:"err,omitempty"`
 }
 
 func str(x any) string { s, _ := x.(string); return s }
@@ -351,6 +353,81 @@ func runMwScript(prios []int) (o Obs) {
 	return ob
 }
 
+// registration-order mode: middlewares (closure or class instance, with priority) and routes are
+// registered in an arbitrary interleaving; a route is wrapped by exactly the middlewares registered
+// BEFORE it. Every route is then served once; the body of each response is its trace.
+//
+//	{"kind":"mwreg","items":[["mw","closure",5],["route"],["mw","class",0],["route"]]}
+func runMwReg(c Case) (o Obs) {
+	var sb strings.Builder
+	sb.WriteString("use Net\\Http\\Server;\n")
+	nm, nr := 0, 0
+	for _, it := range c.Items {
+		if str(it[0]) == "mw" && str(it[1]) == "class" {
+			fmt.Fprintf(&sb, "class Mw%d { public function handle($request, $response, $next) { $response->write(\"E%d;\"); $next($request, $response); $response->write(\"X%d;\"); } }\n", nm, nm, nm)
+		}
+		if str(it[0]) == "mw" {
+			nm++
+		}
+	}
+	sb.WriteString("$server = new Server('127.0.0.1', 0);\n")
+	nm = 0
+	for _, it := range c.Items {
+		switch str(it[0]) {
+		case "mw":
+			if str(it[1]) == "class" {
+				fmt.Fprintf(&sb, "$server->middleware(new Mw%d(), %d);\n", nm, num(it[2]))
+			} else {
+				fmt.Fprintf(&sb, "$server->middleware(function ($request, $response, $next) { $response->write(\"E%d;\"); $next($request, $response); $response->write(\"X%d;\"); }, %d);\n", nm, nm, num(it[2]))
+			}
+			nm++
+		case "route":
+			fmt.Fprintf(&sb, "$server->get('/r%d', function ($req, $res) { $res->write(\"F;\"); });\n", nr)
+			nr++
+		}
+	}
+	defer func() {
+		if r := recover(); r != nil {
+			o.Err = fmt.Sprint(r)
+		}
+	}()
+	vm, p := vrun.NewVM()
+	vm.SetThrowControl(func(acl data.Control) { panic(acl) })
+	prog, acl := p.ParseString(sb.String(), "c13reg.zy")
+	if acl != nil {
+		return Obs{Err: "parse: " + acl.AsString()}
+	}
+	vars := p.GetVariables()
+	ctx := vm.CreateContext(vars)
+	if _, ctl := prog.GetValue(ctx); ctl != nil {
+		return Obs{Err: "run: " + ctl.AsString()}
+	}
+	var mux http.Handler
+	for _, v := range vars {
+		if v.GetName() == "server" {
+			val, _ := ctx.GetVariableValue(v)
+			if gs, ok := val.(data.GetSource); ok {
+				mux, _ = gs.GetSource().(http.Handler)
+			}
+		}
+	}
+	if mux == nil {
+		return Obs{Err: "no server mux"}
+	}
+	// serve the routes in reverse registration order (a cache filled by an early route must not leak)
+	var bodies []string
+	for r := nr - 1; r >= 0; r-- {
+		rec := &counting{ResponseRecorder: httptest.NewRecorder()}
+		mux.ServeHTTP(rec, httptest.NewRequest("GET", fmt.Sprintf("/r%d", r), nil))
+		bodies = append([]string{rec.Body.String()}, bodies...)
+		if rec.wh > 1 {
+			o.Wh = rec.wh
+		}
+	}
+	o.Bodies = bodies
+	return o
+}
+
 var _ = data.NewIntValue
 var _ = sort.Strings
 
@@ -365,6 +442,8 @@ func main() {
 		switch {
 		case c.Kind == "mw":
 			enc.Encode(runMw(c.Prios))
+		case c.Kind == "mwreg":
+			enc.Encode(runMwReg(c))
 		case c.Kind == "server":
 			enc.Encode(runServer(c))
 		case c.Kind == "mwscript":
